@@ -13,23 +13,23 @@ claim("C06", "SSA dominance facts (must-pass-through) + constant/time-layout tab
 claim("C08", "SSA shape analysis of VerifySublayouts + call-graph identity of the recursive entry point",
       "Decides: every Layout payload in the verified map is passed to the same verification entry point with exactly the parent layout's "
       "key of the counted functionary, the <step>.<8-char keyid> directory and the step name; its error fails; the summary replaces it. "
-      "VerifySublayouts receives the directory this layout's own links were loaded from (shared option wiring R-C09-6). Does not decide termination on adversarial directory structures.", "4.8")
+      "VerifySublayouts receives the directory this layout's own links were loaded from (shared option wiring R-C09-6); the summary endpoints are set for every layout with at least one step (length conditions evaluated at 1 and 0, shared R-C05-3). Does not decide termination on adversarial directory structures.", "4.8")
 claim("C09", "SSA dominance facts (ordering) + shape analysis + who-may-call",
       "Decides: inspections run only after all step checks succeeded and success requires successful inspections and inspection rules; "
       "RunInspections runs every inspection's own command in order, fails on start failure and non-zero status; exit-status type agreement; "
-      "materials before / products after the command; os/exec only via RunInspections->InTotoRun->RunCommand; the shared rule engine's MATCH guards, queue / consumption wiring and failing rule types (R-C03-4/5/6); exhaustive loops. Does not decide artifact recording.", "4.9")
+      "materials before / products after the command; os/exec only via RunInspections->InTotoRun->RunCommand; the shared rule engine's MATCH guards, queue / consumption wiring and failing rule types (R-C03-4/5/6); the recorder's walk discipline (shared R-C13-3); every non-empty command reaches RunCommand; exhaustive loops. Does not decide artifact recording.", "4.9")
 claim("C14", "typestate over *exec.Cmd in SSA + def-use pairing of streams and keys + error-flow",
       "Decides: the two pipes of one Cmd are never drained sequentially in the waiting goroutine; Wait dominates success returns and follows "
-      "reads; return-value/stdout/stderr derive from Wait/stdout/stderr respectively; empty command refused before indexing; a Start/Run error is returned unless it is an *exec.ExitError (disjunctive branch facts); no blocking drain under a mutex; no exec.Cmd option (WaitDelay, Cancel, CommandContext) that makes Wait fail for a command that exited. Does not decide timing "
+      "reads; return-value/stdout/stderr derive from Wait/stdout/stderr respectively; empty command refused before indexing; a Start/Run error is returned unless it is an *exec.ExitError (disjunctive branch facts); no blocking drain under a mutex; no exec.Cmd option (WaitDelay, Cancel, CommandContext) that makes Wait fail for a command that exited; InTotoRun hands every non-empty command to RunCommand (control-dependent only on the emptiness test and earlier errors, shared R-C09-4). Does not decide timing "
       "or signal exits.", "4.14")
 claim("C02", "SSA guarded-store analysis (dominance facts keyed by value identity) + branch normal form + map-order analysis + error-flow",
       "Decides: a link is stored in the verified map only under a successful VerifySignature with layout.Keys[id] for an id of the current step's "
       "PubKeys equal to the map key, or with the link's own certificate after a successful CheckCertConstraints of the current step and with the "
       "certificate's own key id as map key; threshold comparison fails iff len < threshold, for every step; loader keys files by their own signature "
-      "selected by file-name prefix and skips garbage; the guards are also found inside an unexported helper whose nil result dominates the store (guard frames); the certificate route trusts only the layout's roots: both certificate pools are non-nil on every success return and the root pool is fed from layout.RootCas only (shared R-C07-3/4). Does not decide the cryptography or constraint semantics.", "4.2")
+      "selected by file-name prefix and skips garbage; the guards are also found inside an unexported helper whose nil result dominates the store (guard frames); the certificate route trusts only the layout's roots: both certificate pools are non-nil on every success return and the root pool is fed from layout.RootCas only (shared R-C07-3/4); the loader's file-name trimming is the inverse of the naming format (shared R-C20-3). Does not decide the cryptography or constraint semantics.", "4.2")
 claim("C10", "map-order independence analysis (A3) + interprocedural effects/alias analysis (A4) + hidden-input reachability",
       "Decides: no range over a Go map on the verification paths leaks iteration order (loop-carried state, early element exit, unsorted accumulation, "
-      "insertion into the ranged map); no write through memory reachable from the entry points' parameters; time/env/randomness only in the expiry check; "
+      "insertion into the ranged map); no write through memory reachable from the entry points' parameters; time/env/randomness only in the expiry check; accumulation kept in an address-taken variable is tracked too and a sort only counts if its comparison function compares its two elements; "
       "no mutable package state. Does not decide determinism of the file system, commands or crypto/x509.", "4.10")
 claim("C16", "global-write analysis over SSA (package-level state, process-global mutators, shared results)",
       "Decides a sufficient structural condition: no package-level variable of in_toto/internal/spiffe is written or written through outside init, no "
@@ -42,7 +42,7 @@ claim("C03", "keyword/grammar table agreement + per-arm facts on phi edges + gua
       "Every item / round / rule / artifact loop is left only by exhaustion or failure (no rule is skipped). Does NOT decide agreement of the interpreter with the spec on all rule programs (set algebra, glob semantics).", "4.3")
 claim("C04", "sibling agreement of Sign/VerifySignature over SSA def-use + key-type table agreement + constant tables",
       "Decides: sign and verify use the same bytes and the same signer/verifier constructor per wrapper; signatures accumulate in both wrappers (the new list is a plain append to the whole previous list, directly or in one helper); hex "
-      "codec pair and key id; key-type tables agree with matching constructors; wrapper detection and payload-type constant. Does not decide cryptographic soundness.", "4.4")
+      "codec pair and key id; key-type tables agree with matching constructors; wrapper detection and payload-type constant; package in_toto never base64-decodes envelope fields itself (who-may-call). Does not decide cryptographic soundness.", "4.4")
 claim("C07", "struct-field coverage + closure/parameter provenance chains + dominance facts + option-literal inspection",
       "Decides: all six attribute checks are evaluated and accumulated, every constraint field is read; chain verification precedes root comparison "
       "with the captured pools; VerifyOptions uses exactly the two pool parameters; root pool fed only from layout.RootCas; any-of loop shape; "
@@ -54,18 +54,18 @@ claim("C11", "type-level JSON schema extraction compared with a frozen wire-form
 claim("C12", "sibling cross-check of the two loaders + nil-dereference facts + static reachability of the validator family + constant tables",
       "Decides: both loaders nil-test raw parts, share the strict decoder and fail on its error; required-field check uses the decoded type and refuses a member only when its key is absent (null written by the writers loads back); unknown markers "
       "fail; writer/reader key agreement; every validator (incl. inspections) is wired from ValidateMetablock; format constants; constructors initialise the "
-      "signature list; validator loops are exhaustive and an error kept across iterations is not overwritten by a later element. Does not decide round-trip equality or exactness of the validator.", "4.12")
+      "signature list; DSSE payload encoder provenance (shared R-C11-3); validator loops are exhaustive and an error kept across iterations is not overwritten by a later element. Does not decide round-trip equality or exactness of the validator.", "4.12")
 claim("C17", "guarded-store facts + reachability + return-shape analysis of the matcher",
       "Decides only: a malformed pattern can not add to Filter's result; rule verification reaches no other matcher; error returns carry matched=false and "
-      "only the bad-pattern sentinel; whole-name exhaustion and trailing-star shape; no '/' special-casing; scanner/matcher escape agreement; the star scan retries every byte offset and the name is not sliced otherwise; matchChunk reads the name only where it is known non-empty (flag-implied branch facts). The glob grammar itself is NOT decided.", "4.17")
+      "only the bad-pattern sentinel; whole-name exhaustion and trailing-star shape; no '/' special-casing; scanner/matcher escape agreement; the star scan retries every byte offset and the name is not sliced otherwise; matchChunk reads the name only where it is known non-empty (flag-implied branch facts); utf8.RuneError is malformed only with width 1. The glob grammar itself is NOT decided.", "4.17")
 claim("C18", "write-set / field-coverage analysis + constant regexp tree comparison + def-use single-pass check + A3 + A4",
       "Decides: exactly the six fields are rewritten, each from itself, once, for every element of the whole list (in place on a copy, or by value into a fresh list of the same length); pairs are (\"{\"+name+\"}\", value); name pattern equals "
-      "^[a-zA-Z0-9_-]+$ with failing mismatch; one Replacer, one Replace per original string; empty dictionary returns the input; order independence; "
+      "^[a-zA-Z0-9_-]+$ with failing mismatch; one Replacer, one Replace per original string, applied to every element on every path (no unsubstituted element is appended); empty dictionary returns the input; order independence; "
       "no write through the argument's memory. Does not decide strings.Replacer's algorithm.", "4.18")
 claim("C13", "constant table + SSA provenance of hashed bytes / digests + dominance facts over the walk callback + def-use of the three-way difference",
       "Decides: hash algorithm table; RecordArtifact hashes the bytes of the named file (os.ReadFile or io.ReadAll of os.Open), rewrites only under lineNormalization and only with the CRLF->LF, CR->LF replacement pair (directly or in one helper), fails on unknown algorithms, "
       "stores each digest under the name whose constructor computed it; walk discipline (errors returned, exclusion before hashing, dir symlinks only on request, "
-      "cycle and collision errors, ToSlash, fresh visited set); snapshot discipline of run/record start/stop; InTotoMatchProducts' three results. Does NOT decide "
+      "cycle and collision errors, ToSlash, fresh visited set); snapshot discipline of run/record start/stop; InTotoMatchProducts' three results (compared hash maps allocated per name). Does NOT decide "
       "completeness of the walk, symlink semantics on real trees or digest values.", "4.13")
 claim("C15", "panic-site obligation analysis over SSA: explicit panics, unchecked assertions, index/slice bound idioms with length facts (disjunctive, phi-aware, callee summaries), nil-deref and nil-map facts",
       "Decides absence of reachable, unguarded panic sites in in_toto code reachable from the loading/validating/signing/verifying entry set: every explicit panic, "
